@@ -215,8 +215,22 @@ func TestVerifC12StalledConsumer(t *testing.T) {
 		for _, l := range links {
 			l.Fail()
 		}
-		c.Close()
-		s.Close()
+		// the verdict is in: persist it before the clean-up, which can itself park behind the stuck teardown
+		res.Save(false)
+		done := make(chan struct{})
+		go func() { c.Close(); s.Close(); close(done) }()
+		select {
+		case <-done:
+		case <-time.After(5 * time.Second):
+			// "nothing left blocked" includes a Close called after the teardown
+			dump := c12Dump()
+			if strings.Contains(dump, "(*Session).Close") || strings.Contains(dump, "closeSession") || strings.Contains(dump, "closeStreams") {
+				res.Violate("call-blocked", fmt.Sprintf("%d MiB unread on one stream, a connection ended, both sessions report closed - and a Session.Close() called afterwards does not return within 5 s", mib), map[string]any{"unread_mib": mib})
+			} else {
+				res.Note("stalled-consumer round %d: closing the sessions afterwards did not return within 5 s (no Close frame in the dump: not judged)", round)
+			}
+			return
+		}
 	}
 }
 
